@@ -146,6 +146,9 @@ func (p *VipnodePool) Update(ctx context.Context, sig string, nodeID string, non
 		if errOld := p.verify(sig, "vipnode_update", nodeID, nonce, oldUpdateRequest{req.Peers, req.BlockNumber}); errOld != nil {
 			return nil, err
 		}
+		// The old format's signature covers Peers and BlockNumber only, do
+		// not act on anything else that came with the request.
+		req.PeerInfo = nil
 	}
 
 	node, err := p.Store.GetNode(store.NodeID(nodeID))
